@@ -48,14 +48,15 @@ BAD_KINDS = ["arg", "ret", "yield", "func", "unhash_arg", "unhash_ret", "unhash_
 ALT = "alt_traces"                                      # a second table in the same file
 
 # add(traces: Iterable[CallTrace]): the batch is handed over as a generator / tuple / iterator / list / dict view
-A1 = ["add", 0, [T("m", "my_func"), BAD("arg"), T("m", "myXfunc"), T("m", "MY_FUNC")], None, "gen"]
-A2 = ["add", 1, [T("m", "foo"), T("m", "Foo.bar"), BAD("unhash_arg"), T("M", "foo"), T("m", "my_func"), T("m", "foo")], -1, "tuple"]      # the day before
+A1 = ["add", 0, [T("m", "my_func"), ["bad", "arg_of", "m", "myXfunc"], T("m", "myXfunc"), T("m", "MY_FUNC")], None, "gen"]
+A2 = ["add", 1, [T("m", "foo"), T("m", "Foo.bar"), BAD("unhash_arg"), T("M", "foo"), T("m", "my_func"), T("m", "foo"),
+                 T("m", "fop"), T("m", "my_fund"), ["bad", "arg_of", "m", "my_func"]], -1, "tuple"]      # the day before
 A3 = ["add", 2, [T("m", "a%b", 1), BAD("func"), T("m", "aXXb", 1), T("", "foo", 2),
                  T("m", "a[b", 1), T("m", "a[b]c", 1), T("m", "a?c", 1), T("m", "aXc", 1), T("m", "a*b", 1),
                  T("m", "a\\b", 1)], None, "iter"]
 # rows of one function that differ in exactly one column each (arg_types / return_type / yield_type, NULL vs text)
 A4 = ["add", 1, [T("m", "foo", 0), T("m", "foo", 8), BAD("yield"), T("m", "foo", 9), T("m", "foo", 6), BAD("ret"),
-                 T("m", "foo", 7), T("m", "foo", 10), T("m", "foo", 8)], 2]                                         # two days later
+                 T("m", "foo", 7), T("m", "foo", 10), T("m", "foo", 8), T("m", "foo", 11)], 2]                                         # two days later
 X1 = ["add_fault", 1, [T("m", "my_func", 1), T("m", "foo", 1)], ["interrupt", 9]]
 X2 = ["add_fault", 2, [T("M", "Foo.bar", 1), T("m", "a%b")], ["locked"]]
 X3 = ["add_fault", 0, [T("m", "aXXb"), T("M", "my_func")], ["evil", 1]]
@@ -109,10 +110,11 @@ def random_history(rnd, maxlen=40, nconn=3, tables=None):
             specs = []
             for _ in range(rnd.randint(0, 5)):
                 if rnd.random() < 0.15:
-                    specs.append(BAD(rnd.choice(BAD_KINDS)))
+                    specs.append(BAD(rnd.choice(BAD_KINDS)) if rnd.random() < 0.6 else
+                                 ["bad", "arg_of", rnd.choice(["m", "M"]), rnd.choice(sm.QUALNAMES)])
                 else:
-                    specs.append(T(rnd.choice(["m", "m", "M", ""]), rnd.choice(sm.QUALNAMES + sm.GLOB_QUALNAMES),
-                                   rnd.choice([0, 0, 0, 1, 2, 3, 6, 7, 8, 9, 10])))
+                    specs.append(T(rnd.choice(["m", "m", "M", ""]), rnd.choice(sm.QUALNAMES + sm.GLOB_QUALNAMES + sm.SUCC_QUALNAMES),
+                                   rnd.choice([0, 0, 0, 1, 2, 3, 6, 7, 8, 9, 10, 11])))
             ops.append(["add", rnd.randrange(3), specs, rnd.choice([None, None, -2, -1, 0, 1, 3]),
                         rnd.choice(sm.CONTAINERS)])
         elif x < 0.45:
@@ -213,6 +215,39 @@ def campaign_tables(rnd, tier):
         for _ in range(40 if tier == "quick" else 500):
             hs.append(random_history(rnd, 30, len(tables), tables))
     return hs
+
+
+def campaign_requery():
+    """one long-lived store is asked the same questions again after it, and after another connection, added rows"""
+    qs = [["filter", 0, "m", "foo", 2000], ["filter", 0, "m", None, 2000], ["filter", 0, "m", "my_func", 2], ["modules", 0],
+          ["filter", 0, "M", None, 2000], ["filter", 0, "m", "a", 2000]]
+    hs = []
+    for c in (0, 1):
+        q = [[x[0], c] + x[2:] for x in qs]
+        hs.append(q + [["add", c, A2[2]]] + q + [["add", c, A4[2], 2]] + q + [["add", 2, A3[2]]] + q +
+                  [["add", c, A1[2]], ["table"]] + q + [["reopen", c]] + q)
+    return hs
+
+
+def campaign_isolation(work, it):
+    """stores on different databases with the same connection string (two `:memory:` stores; one relative path opened
+    from two working directories) are independent stores: each is judged as a history of its own"""
+    p = _spawn(["isolation", os.path.join(work, "iso")])
+    out, err = p.communicate(timeout=120)
+    if p.returncode != 0:
+        raise RuntimeError("isolation worker failed: " + err[-800:])
+    cases = []
+    for scen, logs in json.loads(out.strip().splitlines()[-1]).items():
+        for k, log in enumerate(logs):
+            steps = []
+            for op, obs in log:
+                if obs.get("k") == "rows":
+                    obs["rows"] = [tuple(r) for r in obs["rows"]]
+                steps.append((op, obs))
+            ops = [op for op, _ in steps]
+            cases.append({"kind": f"isolation-{scen}", "ops": ops, "steps": steps, "pre": [], "tables": None,
+                          "nontrivial": True, "no_replay": True, "term": sm.hist_term(it, [], steps)})
+    return cases
 
 
 def campaign_config():
@@ -336,9 +371,14 @@ def campaign_mid_reads(work, tier, it, dist):
                     except sqlite3.OperationalError as e:
                         seen["table_err"] = str(e)
                 return 0
-            rig.stores[0].conn.set_progress_handler(handler, 1)
-            rig.do(["add", 0, specs])
-            rig.stores[0].conn.set_progress_handler(None, 1)
+            try:
+                rig.stores[0].conn.set_progress_handler(handler, 1)
+                rig.do(["add", 0, specs])
+                rig.stores[0].conn.set_progress_handler(None, 1)
+            except sqlite3.Error as e:          # the store's connection is unusable: a failure of its own
+                seen.clear()
+                cases.append({"kind": "mid-read", "nontrivial": True, "term": "CReach [] [] [] [] false",
+                              "desc": f"the connection of a fresh SQLiteStore.make_store() cannot be used: {type(e).__name__}: {e}"})
         finally:
             rig.close()
         if not seen:
@@ -794,6 +834,8 @@ def run(ctx):
         histories.append(("two-tables", ops))
     for ops in campaign_config():
         histories.append(("store-configuration", ops))
+    for ops in campaign_requery():
+        histories.append(("requery", ops))
     for ops in campaign_many_modules():
         histories.append(("many-modules", ops))
     if not quick:          # 100200 raw rows: about 30 s of execution and evaluation, thorough tier only
@@ -843,6 +885,7 @@ def run(ctx):
     # 6..8 campaigns with their own case shapes
     t_camp = time.time()
     cases += campaign_mid_reads(ctx.work, ctx.tier, it, dist)
+    cases += campaign_isolation(ctx.work, it)
     cases += campaign_kill(ctx.work, ctx.tier, rnd, it, dist)
     cases += campaign_concurrency(ctx.work, ctx.tier, it, dist)
     # (the file has to grow by more than the 2 MB page cache before pages of the committed index are written over)
@@ -875,7 +918,7 @@ def run(ctx):
                 rec["failing_step"] = k
                 rec["observed"] = c["steps"][k][1]
                 prefix_ops = head + body[:k + 1]
-                if code == 2 and not failures and not c["pre"]:
+                if code == 2 and not failures and not c["pre"] and not c.get("no_replay"):
                     prefix_ops = minimise(ctx.work, prefix_ops)
                     steps = sm.run_history(os.path.join(ctx.work, "min.db"), prefix_ops)
                     d2 = describe_history([], steps, tables)
